@@ -64,7 +64,7 @@ theorem pop_exec (e : Env F) (mst : AStar.St F) (s : State F) (hs : s.ctl = .run
   have h2 : exec fuel wbPop r1 = exec fuel wbGoal s2 := by
     ilsimp [wbPop, s2, hr1, hr0, hr1', hfr.shp, hc.s_open, hc.s_closed, ru1, ru2, hou]
   refine ⟨s2, ?_, hr1, ⟨?_, ?_, ?_, ?_⟩, hfr.fa, ?_, ?_⟩
-  · rw [whileBody, exec_seq_run hr1eq hr1, h2]
+  · rw [whileBody, exec_seq_to hr1eq hr1, h2]
   · exact hc.of_frame (r := s2) hfr.shp (by simp [s2, hfr.fa]) (by simp [s2, hfr.fa])
       (by simp [s2, setS_apply, hfr.ia]) (by simp [s2, setS_apply, hfr.ia])
       (by simp [s2, setS_apply, hk _ (by decide : "height" ∈ keepI)])
@@ -102,7 +102,7 @@ theorem iter_expand (e : Env F) (mst : AStar.St F) (s : State F) (hs : s.ctl = .
       ilsimp [goalSt, hinv2.py, hinv2.px, hinv2.const.gy, hinv2.const.gx, h1, h2]
     · ilsimp [goalSt, hinv2.py, hinv2.px, hinv2.const.gy, hinv2.const.gx, h1]
   have hl := rx_loop e u hu (close mst u) s2 hs2 hinv2 fuel
-  rw [h2, wbGoal, exec_seq_run hg hs2, wbTail, exec_seq_run rfl hl.1]
+  rw [h2, wbGoal, exec_seq_to hg hs2, wbTail, exec_seq_to rfl hl.1]
   generalize exec fuel rxLoop s2 = r3 at hl
   obtain ⟨hr3, hinv3, hp3⟩ := hl
   ilsimp [hr3]
